@@ -202,6 +202,7 @@ func run(c *vf.Ctx) {
 	c.Assume("scheduling points at synchronisation and network operations only, sequential consistency; the kernel is replaced by the vnet shim (documented blocking/close/deadline/at-most-once semantics); virtual time advances only at quiescence; unsynchronised accesses are sampled by the separate free-running -race pass")
 	B := c.Pick(3, 4)
 	all := append(nbnsScenarios(c, B), llmnrScenarios(c, B)...)
+	all = append(all, challengeScenarios(c, B)...)
 	if !vf.IsWorker() {
 		w := runtime.NumCPU()
 		if w > 16 {
